@@ -86,9 +86,14 @@ def run(rep):
     if of is not None:
         det = show(of.body)
         b = unblock(of.body)
-        if det == "<T>::unwrap_or(<T>::map(<T>::as_ref(self), |closure {closure#0}|), Value::Null)":
-            ok_outer = True
-            ok_inner = bool(oc) and show(oc.body) == "AsValue::as_value(v)"
+        oc_ = q.option_cases(b, F)
+        recv_ = peel(oc_[0]) if oc_ else None
+        while recv_ is not None and call_is(recv_, "::as_ref") and len(recv_["args"]) == 1:
+            recv_ = peel(recv_["args"][0])
+        if oc_ and q.var_id(recv_) == strip_ref(of.thir["params"][0]["pat"]).get("id"):
+            sb = unblock(oc_[2])
+            ok_inner = call_is(sb, "AsValue::as_value") and q.base_var(sb["args"][0]) == oc_[1]
+            ok_outer = show(unblock(oc_[3])) == "Value::Null"
         else:
             sc, brs = q.branches(b)
             if sc is not None and q.base_var(sc) == strip_ref(of.thir["params"][0]["pat"]).get("id") and len(brs) == 2:
